@@ -177,6 +177,28 @@ def gen_float(args):
         except Exception as e:
             r['none'] = -99; r['err'] = type(e).__name__
         recs.append(r)
+    # parabolic refinement on short integer-valued signals: refined locations are small rationals and can land a
+    # rounding error away from a sample index (finding D25): one envelope value per sample, on the integer grid
+    fixed = [np.array([-1.0, -1.0, 3.0, 0.0, -1.0, 2.0, -3.0, 4.0, -1.0, -2.0, 1.0, -0.0, 1.0, -1.0, -2.0, -0.0])]
+    for i in range(count * 3 + len(fixed)):
+        x = fixed[i] if i < len(fixed) else rng.randint(-4, 5, size=int(rng.randint(6, 26))).astype(float)
+        N = len(x)
+        for emode in ('upper', 'lower'):
+            pw = 1 if i < len(fixed) else int(rng.randint(1, 4))
+            method = METHODS[rng.randint(3)]
+            r = {'kind': 'envp', 'n': N, 'n_out': -1, 'grid': 'n/a', 'none': 0, 'pw': pw, 'x': [int(v) for v in x], 'emode': emode, 'method': method}
+            o = core.guarded(emd.sift.interp_envelope, x, mode=emode, interp_method=method,
+                             extrema_opts={'pad_width': pw, 'parabolic_extrema': True}, ret_extrema=True)
+            if isinstance(o, str):
+                r['none'] = -99
+                r['err'] = o
+            elif o is None:
+                r['none'] = 1
+            else:
+                env, (l2, m2) = o
+                r['n_out'] = int(len(env))
+                r['grid'] = grid_class(method, env, np.asarray(l2, float), np.asarray(m2, float), N) if len(env) == N else 'n/a'
+            recs.append(r)
     return recs
 
 
